@@ -103,8 +103,17 @@ def parse_output(text):
         mm = re.match(r'\s*Failed Checks: (.*)$', line)
         if mm:
             b['failed_checks'].append(mm.group(1).strip())
+            b['_in_fc'] = True
             if 'unwinding assertion' in mm.group(1):
                 b['unwind_fail'] = True
+            continue
+        if b.get('_in_fc'):
+            # a check description may span several lines (unexpanded macro text); it ends at ` File: ...`
+            if re.match(r'\s*File: ', line) or re.match(r'\s*VERIFICATION', line) or not line.strip():
+                b['_in_fc'] = False
+            else:
+                b['failed_checks'][-1] += ' ' + line.strip()
+                continue
         mm = re.match(r'\s*VERIFICATION:- (\w+)', line)
         if mm:
             b['status'] = mm.group(1)
